@@ -335,14 +335,30 @@ def run_linear(unit) -> UnitResult:
                     if key not in seen and key not in seen_x:
                         seen_x.add(key)
                         extra.append(kch)
-        for a in genos + extra[:12]:
+        from geneticengine.algorithms.gp.operators.mutation import GenericMutationStep
+        from geneticengine.evaluation.sequential import SequentialEvaluator
+        from geneticengine.problems import SingleObjectiveProblem
+        from geneticengine.solutions.individual import Individual
+
+        step_problem = SingleObjectiveProblem(lambda p: 0.0, minimize=False)
+        parents = genos + extra[:12]
+        # every parent is mutated directly (representation.mutate) and through the mutation step a search applies
+        # (GenericMutationStep with probability 1 on a population of one): the offspring of either differs in one gene
+        for via, a in [("direct", a) for a in parents] + [("step", a) for a in parents[:8]]:
             sa = shape(a)
 
-            def mut(src, a=a):
-                return mk(src).mutate(src, a)
+            def mut(src, a=a, via=via):
+                rep = mk(src)
+                if via == "direct":
+                    return rep.mutate(src, a)
+                out = list(GenericMutationStep(1).apply(step_problem, SequentialEvaluator(), rep, src, iter([Individual(a, rep)]), 1, 0))
+                assert len(out) == 1, f"mutation step returned {len(out)} individuals for one"
+                return out[0].genotype
 
-            for ex in explore(mut, max_execs=600, horizon=300, stats=ExploreStats(), source_kwargs=skw):
+            for ex in explore(mut, max_execs=600 if via == "direct" else 300, horizon=300, stats=ExploreStats(), source_kwargs=skw):
                 r.executions += 1
+                if via == "step":
+                    r.count("mutations_through_the_step")
                 if ex.exc is not None or ex.capped:
                     if ex.exc is not None and not is_library_error(ex.exc):
                         r.add_violation(Violation(PROP, f"{rep_kind}.mutate", "raised", {"exc": type(ex.exc).__name__, "L": L},
@@ -369,7 +385,7 @@ def run_linear(unit) -> UnitResult:
                 if not same_shape or ham > 1:
                     r.add_violation(Violation(PROP, f"{rep_kind}.mutate", "mutation-not-local", {"L": L, "same_shape": same_shape},
                                               {"unit": P.clean_unit(unit), "choices": list(ex.choices), "p1": sa, "child": sc},
-                                              f"{rep_kind} mutate: {sa} -> {sc}"))
+                                              f"{rep_kind} mutate{' (through GenericMutationStep)' if via == 'step' else ''}: {sa} -> {sc}"))
         r.states = len(genos)
         if genos and len(r.samples) < 1:
             r.samples.append({"rep": rep_kind, "L": L, "parents": [shape(x) for x in genos[:3]]})
